@@ -10,7 +10,8 @@ R2  spec->code: TLC prints, for every graph of the bound, the complete expected 
     compares every routine of graph/path with those answers.
 R3  code->spec: seeded random graphs up to 60 nodes are run through the real routines, the answers
     are logged and TLC judges every logged weight and path with the fixed-point definition
-    (ShortestPathTrace.tla).
+    (ShortestPathTrace.tla).  D* Lite: random worlds, the documented loop Step / change costs /
+    UpdateWorld, Path() and Step() logged after every action and judged against the current world.
 """
 import json
 import os
@@ -109,6 +110,21 @@ def run(ctx):
             ctx.violation("path:trace-rejected:%s" % gname, st2.get("detail", "")[:600],
                           {"trace": dst, "spec": TSPEC, "cfg": dict(KNOWNCUT="TRUE")})
 
+    # ---- R3 (D* Lite): the documented replanning loop on random worlds, judged by TLC -----------
+    tr = os.path.join(ctx.work, "dstar.ndjson")
+    summ = ctx.record(hb, "path-dstar", tr, ["worlds=%d" % (3000 if thorough else 400), "rounds=10", "maxn=10"],
+                      name="R3 record D* Lite histories")
+    ok, st = ctx.validate(TSPEC, TCFG, tr, subst=dict(KNOWNCUT="FALSE"), name="R3 validate D* Lite histories")
+    if ok:
+        ctx.traces += summ.get("traces", 0)
+    else:
+        keep = os.path.join(ctx.work, "..", "..", "replays", "C13")
+        os.makedirs(keep, exist_ok=True)
+        dst = os.path.abspath(os.path.join(keep, "dstar-seed%d.ndjson" % ctx.seed))
+        shutil.copy(tr, dst)
+        ctx.violation("path:dstar-trace-rejected", st.get("detail", "")[:600],
+                      {"trace": dst, "spec": TSPEC, "cfg": dict(KNOWNCUT="FALSE")})
+
     ctx.assumptions += [
         "TLC/SANY and the CommunityModules Json module are trusted",
         "the harness's graph builder, model-id<->real-id binding and table look-ups are trusted "
@@ -118,7 +134,8 @@ def run(ctx):
     return ctx.finish(
         rule="R2: one case = one graph with the complete expected answers of all routines, replayed on every "
              "container kind x id binding x view; non-trivial = the graph has at least one edge. "
-             "R3: one trace = one random graph with the logged answers of all routines.",
+             "R3: one trace = one random graph with the logged answers of all routines, or one D* Lite world "
+             "history (Step / UpdateWorld rounds).",
         exhaustive=True)
 
 
